@@ -8,6 +8,7 @@
 package main
 
 import (
+	"verif/h/rig"
 	"bytes"
 	"fmt"
 	"math/rand"
@@ -483,6 +484,10 @@ func caseTxRoot(c *vf.Ctx, i, K int) {
 // ---------------------------------------------------------------------------------------------
 
 func main() {
+	if len(os.Args) > 1 && os.Args[1] == "node" {
+		rig.ChildMain() // node rig child of the restart scenario (restart.go)
+		return
+	}
 	c := vf.Start("C19", "exploration")
 	out = c
 	if spec := os.Getenv(childEnv); spec != "" {
@@ -557,6 +562,7 @@ func main() {
 		parallel(s.n, func(i int) { guard(c, s.name, i, func() { s.f(i) }) })
 	}
 	guard(c, "hardfork", 0, func() { runHardfork(c) })
+	guard(c, "restart", 0, func() { runNodeRestart(c) })
 
 	dupMu.Lock()
 	if len(dupExample) > 0 {
